@@ -35,10 +35,12 @@ func classFor(r *rand.Rand) int {
 	switch x := r.Intn(100); {
 	case x < 68:
 		return 0
-	case x < 95:
+	case x < 94:
 		return 1
-	default:
+	case x < 99:
 		return 2
+	default:
+		return 3 // records above 1 MiB
 	}
 }
 
